@@ -1382,3 +1382,26 @@ Proof.
   - cbn [ns_mon_run] in H. destruct (ns_mon_step c m e o) as [m1|] eqn:E; [|discriminate].
     eapply IH; [|exact H]. eapply ns_mon_step_bound; eassumption.
 Qed.
+
+(* ---------------------------------------------------------------- non-vacuity *)
+Definition ns_cfg_ex : ns_cfg := ns_mkcfg 2 1 true true.
+Definition ns_evs_ex : list ns_ev :=
+  [NsSubmit (ns_mkmsg true 1 101); NsSubmit (ns_mkmsg false 2 102); NsSubmit (ns_mkmsg true 3 103);
+   NsSubmit (ns_mkmsg true 4 104); NsUp; NsSubmit (ns_mkmsg true 5 105); NsSubmit (ns_mkmsg false 6 106);
+   NsRst 2; NsAck 1; NsTick 3; NsTick 3; NsSep 104; NsSubmit (ns_mkmsg true 7 107);
+   NsSubmit (ns_mkmsg true 8 108); NsFail 1].
+
+(* a history that starts before the handshake is over, holds CONs and NONs, releases them on
+   Up / ACK / give-up / cancel and ends in a disconnect with one CON still held *)
+Lemma ns_example :
+  ns_wf ns_cfg_ex /\ NoDup (ns_sub_mids ns_evs_ex) /\
+  map ns_mid (ns_held (ns_trace ns_cfg_ex (ns_init false) ns_evs_ex)) = [1; 2; 3; 4; 5; 8] /\
+  map ns_mid (ns_released (ns_trace ns_cfg_ex (ns_init false) ns_evs_ex)) = [1; 2; 3; 4; 5; 8] /\
+  map ns_mid (ns_txs (flat_map snd (ns_trace ns_cfg_ex (ns_init false) ns_evs_ex))) = [1; 2; 3; 6; 4; 5; 7] /\
+  ns_accepts ns_cfg_ex false (ns_trace ns_cfg_ex (ns_init false) ns_evs_ex) = true /\
+  ns_nack_count 8 (flat_map snd (ns_trace ns_cfg_ex (ns_init false) ns_evs_ex)) = 1%nat.
+Proof.
+  split; [split; [reflexivity|cbn; lia]|].
+  split; [cbn; repeat constructor; cbn; intuition discriminate|].
+  vm_compute. repeat split.
+Qed.
